@@ -6,6 +6,7 @@
 #include <deque>
 extern "C" {
 #include "random/ascon-trng.h"
+#include "core/ascon-select-backend.h"
 }
 
 static std::string g_mode = "prng";
@@ -68,6 +69,37 @@ static std::string op_mix(const Toks &t) {
     return std::to_string(ok1 ? 1 : 0) + " " + std::to_string(ok2 ? 1 : 0) + " " + std::to_string(g_trng_sys_calls - before) + " " + w1 + " " + w2;
 }
 static Reg r_mix("MIX", op_mix);
+
+// MIXM <kind> <n> <seed1> <ok1> <seed2> <ok2>: the same history with the system answers given on the line and the words printed as the
+// numbers they are (compared with Model/Mixerm.v, which needs to know how the backend keeps the state: <kind> must be this build's)
+static std::string op_mixm(const Toks &t) {
+#if defined(ASCON_BACKEND_SLICED64)
+    const char *mine = "0";
+#elif defined(ASCON_BACKEND_DIRECT_XOR)
+    const char *mine = "1";
+#elif defined(ASCON_BACKEND_SLICED32)
+    const char *mine = "2";
+#else
+    const char *mine = "?";
+#endif
+    if (t[1] != mine) return std::string("KIND-IS-") + mine;
+    int n = atoi(t[2].c_str());
+    g_sys.clear();
+    g_sys.push_back(std::make_pair(unhex(t[3]), atoi(t[4].c_str())));
+    g_sys.push_back(std::make_pair(unhex(t[5]), atoi(t[6].c_str())));
+    ascon_trng_state_t st;
+    char buf[32];
+    std::string a, b, d;
+    int ok1 = ascon_trng_init(&st);
+    for (int i = 0; i < n; ++i) { snprintf(buf, sizeof(buf), "%016llx", (unsigned long long)ascon_trng_generate_64(&st)); a += buf; }
+    for (int i = 0; i < 3; ++i) { snprintf(buf, sizeof(buf), "%08x", (unsigned)ascon_trng_generate_32(&st)); b += buf; }
+    snprintf(buf, sizeof(buf), "%016llx", (unsigned long long)ascon_trng_generate_64(&st)); a += buf;
+    int ok2 = ascon_trng_reseed(&st);
+    for (int i = 0; i < n; ++i) { snprintf(buf, sizeof(buf), "%016llx", (unsigned long long)ascon_trng_generate_64(&st)); d += buf; }
+    ascon_trng_free(&st);
+    return std::to_string(ok1 ? 1 : 0) + " " + std::to_string(ok2 ? 1 : 0) + " " + a + " " + b + " " + (d.empty() ? std::string("") : d);
+}
+static Reg r_mixm("MIXM", op_mixm);
 
 void hx_trng_script(const std::vector<uint64_t> &words) {
     g_mode = "zero"; g_ctr = 0; g_list.clear();
